@@ -106,6 +106,15 @@ NoSecondHostSkipped == ~(Done /\ Sel # 0 /\ ~res.hit /\
 NoQueryMatters   == ~(Done /\ res # Route(app, req.kind, req.hostp, req.host, req.target))
 
 (***************************************************************************)
+(* Sensitivity configurations list DevPrint before AlgoCorrect: the state  *)
+(* that refutes a deviation is printed, and the harness then shows on the   *)
+(* REAL app that it answers as Expected and not as the deviating model.     *)
+(***************************************************************************)
+DevPrint == (Done /\ res # Expected(app, req)) =>
+              PrintT(ToJson([dev_case |-> [app |-> app, req |-> req, model |-> <<res.sub, res.idx>>,
+                                           exp |-> <<Expected(app, req).sub, Expected(app, req).idx>>]]))
+
+(***************************************************************************)
 (* Vector generation. One JSON line for the request catalogue, then one per *)
 (* app: the app as registered and, per request index, <<sub, idx, class,    *)
 (* shadow, qm, skip>>: sub/idx = expected handler (0,0 = miss);                       *)
